@@ -368,7 +368,7 @@ async def chat_completion(body: RequestBody, request: Request):
             streaming_handler = StreamingHandler()
 
             # Start the generation
-            asyncio.create_task(
+            generation_task = asyncio.create_task(
                 llm_rails.generate_async(
                     messages=messages,
                     streaming_handler=streaming_handler,
@@ -377,9 +377,28 @@ async def chat_completion(body: RequestBody, request: Request):
                 )
             )
 
-            # TODO: Add support for thread_ids in streaming mode
+            if datastore_key is None:
+                return StreamingResponse(streaming_handler)
 
-            return StreamingResponse(streaming_handler)
+            # If we're using threads, the thread is updated once the generation has
+            # finished, before the streamed response ends.
+            async def _stream_and_update_thread():
+                async for chunk in streaming_handler:
+                    yield chunk
+
+                try:
+                    res = await generation_task
+                    if isinstance(res, GenerationResponse):
+                        bot_message = res.response[0]
+                    else:
+                        bot_message = res
+                    await datastore.set(
+                        datastore_key, json.dumps(messages + [bot_message])
+                    )
+                except Exception as ex:
+                    log.exception(ex)
+
+            return StreamingResponse(_stream_and_update_thread())
         else:
             res = await llm_rails.generate_async(
                 messages=messages, options=body.options, state=body.state
